@@ -341,7 +341,7 @@ class Gen:
                 return ('bcall', 'INSTR', [('lit', '%', r.choice([1, 2, 3])), self.sexpr(sc, depth),
                                            self.sexpr(sc, 0)])
             if c == 'INT':
-                return ('bcall', 'INT', [self.nexpr(sc, r.choice('!#'), depth)])
+                return ('bcall', 'INT', [self.nexpr(sc, r.choice('!#!#%&'), depth)])
             if c == 'CLNG':
                 return ('bcall', 'CLNG', [self.nexpr(sc, self.numt(), depth)])
             if c in ('LBOUND', 'UBOUND'):
@@ -417,6 +417,8 @@ class Gen:
 
     def ucall(self, sc, f, depth):
         args = self.call_args(sc, f, depth)
+        if args is None:
+            return self.atom(sc, f['rtype'])
         self.features.add('function-call')
         return ('ucall', f['name'], args, f['rtype'])
 
@@ -427,7 +429,20 @@ class Gen:
             if isarr:
                 arrs = [a for a in sc.arrays + (self.shared.arrays if sc is not self.shared else [])
                         if a[1] == pt and len(a[2]) == isarr]
+                if not arrs:
+                    return None
                 args.append(('arr', r.choice(arrs)[0]))
+                continue
+            if isinstance(pt, tuple):
+                recs = [('var', n_, ('rec', tn_)) for n_, tn_ in sc.records + (self.shared.records if sc is not self.shared else [])
+                        if tn_ == pt[1]]
+                for n_, et, dims, dyn in sc.arrays + (self.shared.arrays if sc is not self.shared else []):
+                    if et == pt:
+                        recs.append(('elem', n_, et, [self.index_expr(sc, lb, ub) for lb, ub in dims]))
+                if not recs:
+                    return None
+                args.append(r.choice(recs))
+                self.features.add('byref-record')
                 continue
             lvs = self.lvalues_of(sc, pt)
             if lvs and r.random() < 0.6:
@@ -508,6 +523,12 @@ class Gen:
         for lb, ub in dims:
             lbe = self.int_lit(lb)
             ube = self.int_lit(ub)
+            if r.random() < 0.15:
+                # fractional constant bound: the declared bound is the rounded value (no .5 ties)
+                fr = r.choice([-0.3, 0.4, 0.3, -0.4])
+                v = ub + fr
+                ube = ('lit', '!', abs(v)) if v >= 0 else ('un', '-', ('lit', '!', abs(v)))
+                self.features.add('fractional-bound')
             if dyn:
                 x = r.choice(self.vars_of(sc, '%'))
                 ube = ('bin', '+', ube, ('par', ('bin', '-', x, x)))
@@ -573,8 +594,10 @@ class Gen:
             subs = [p_ for p_ in self.procs if p_['kind'] == 'sub']
             if subs:
                 f = r.choice(subs)
-                self.features.add('sub-call')
-                return ['call', f['name'], self.call_args(sc, f, 1), r.random() < 0.5]
+                cargs = self.call_args(sc, f, 1)
+                if cargs is not None:
+                    self.features.add('sub-call')
+                    return ['call', f['name'], cargs, r.random() < 0.5]
             return self.print_stmt(sc)
         if p < 0.78 and o.data and self.data_items and not self.in_function:
             return self.read_stmt(sc)
@@ -864,6 +887,12 @@ class Gen:
             rn = pn if style else pn + pt       # "zq1 AS LONG" or "zq1&"
             params.append((rn, pt, 0, style))
             sc.scalars.append((rn, pt))
+        if o.records and self.types and r.random() < 0.3:
+            tn = r.choice(self.types)[0]
+            pn = self.fresh('q')
+            params.append((pn, ('rec', tn), 0, True))
+            sc.records.append((pn, tn))
+            self.features.add('record-param')
         if o.arrays and self.shared.arrays and r.random() < 0.25:
             a = r.choice(self.shared.arrays)
             if isinstance(a[1], str):
